@@ -35,7 +35,17 @@ def run_property(prop: str, root: str, tier: str, seed: int, write: bool = True)
             for c in census:
                 print(f"ANALYSIS-ERROR property={prop} dynamic feature invalidates call/type resolution: {c}")
             return 2
-        mod.check(eng, res)
+        try:
+            mod.check(eng, res)
+        except Exception as exc:  # noqa: BLE001
+            # a rule that ran to completion and found a violation has decided it on its own; a later rule that cannot
+            # cope with the changed code must not turn that verdict into "cannot speak"
+            from sa.report import load_known
+
+            known = {k["key"] for k in load_known().get("known", []) if k.get("property") == prop}
+            if not any((not o.ok) and o.key not in known for o in res.obligations):
+                raise
+            res.info(f"a later rule could not be evaluated on this code ({type(exc).__name__}: {exc}); the violations above were decided before it")
         level = getattr(mod, "LEVEL", "other")
         extra = None
         if hasattr(mod, "extra_coverage"):
